@@ -39,6 +39,7 @@ type variant struct {
 	Big  bool `json:"big,omitempty"`  // complexity probes answer 2.5e7 (TraceQL / label-values complex path)
 	Part int  `json:"part,omitempty"` // structured values: which part holds the payload
 	Op   int  `json:"op,omitempty"`   // structured values: which operator / form
+	Opt  int  `json:"opt,omitempty"`  // non-default request options (see curOpt)
 }
 
 // outcome of placing a payload.
@@ -73,7 +74,7 @@ const (
 	toS   = int64(1700003600)
 )
 
-var defaultPanel = []string{"abc", "", "123", "a.*b|c", "(?i)abc", "a b", "x_y", "12.5"}
+var defaultPanel = []string{"abc", "", "123", "a.*b|c", "(?i)abc", "a b", "x_y", "12.5", "abc|def", "^(abc|d1|e_f)$"}
 
 // mode of the fake database, read by the handler
 var bigMode atomic.Bool
@@ -103,7 +104,92 @@ func lit(p string, tick bool) (string, string, bool) {
 	return jsonLit(p)
 }
 
+// curOpt is the option variant of the request being placed (set by statements()). get()
+// and the direct service calls apply it, so that EVERY position is exercised under the
+// non-default options of its request as well (variant.Opt):
+//
+//	LogQL query_range   1 direction=forward  2 instant query (/loki/api/v1/query)  3 step=60
+//	                    4 limit=1000, step=15  5 step=1
+//	label / series APIs odd: without start/end (the controller's now-based defaults)
+//	/api/search         1 minDuration+maxDuration  2 without start/end  3 limit=100, minDuration=2s
+//	/api/v2/search/...  odd: limit=5
+//	Prometheus Select   hints: raw / down-sampled x {plain, rate / sum_over_time by (a), no function / count_over_time}
+//	Pyroscope           SelectSeries: aggregation SUM / AVERAGE x group by {pod} / none / {pod, a} x step 15 / 60;
+//	                    TimeSeries: with / without label names
+var curOpt int
+
+func applyOpt(path string, q url.Values) (string, url.Values) {
+	o := curOpt
+	if o == 0 {
+		return path, q
+	}
+	c := url.Values{}
+	for k, v := range q {
+		c[k] = v
+	}
+	switch {
+	case path == "/loki/api/v1/query_range":
+		switch o % 6 {
+		case 1:
+			c.Set("direction", "forward")
+		case 2:
+			path = "/loki/api/v1/query"
+			c.Set("time", c.Get("end"))
+			c.Del("start")
+			c.Del("end")
+			c.Del("step")
+		case 3:
+			c.Set("step", "60")
+		case 4:
+			c.Set("limit", "1000")
+			c.Set("step", "15")
+		case 5:
+			c.Set("step", "1")
+		}
+	case strings.Contains(path, "/label/") || strings.HasSuffix(path, "/series"):
+		if o%2 == 1 {
+			c.Del("start")
+			c.Del("end")
+		}
+	case path == "/api/search":
+		switch o % 4 {
+		case 1:
+			c.Set("minDuration", "1ms")
+			c.Set("maxDuration", "5s")
+		case 2:
+			c.Del("start")
+			c.Del("end")
+		case 3:
+			c.Set("limit", "100")
+			c.Set("minDuration", "2s")
+		}
+	case strings.HasPrefix(path, "/api/v2/search/"):
+		if o%2 == 1 {
+			c.Set("limit", "5")
+		}
+	}
+	return path, c
+}
+
+// promHints: the SelectHints variants (raw path and down-sampled path, with and without
+// range functions and grouping).
+func promHints(v variant) *storage.SelectHints {
+	list := []storage.SelectHints{
+		{Start: fromS * 1000, End: toS * 1000, Step: 1000},
+		{Start: 1699999995000, End: toS * 1000, Step: 30000, Func: "avg_over_time", Range: 300000},
+		{Start: fromS*1000 + 1, End: toS * 1000, Step: 15000, Func: "rate", Range: 60000},
+		{Start: 1699999995000, End: toS * 1000, Step: 30000, Func: "sum_over_time", Range: 60000, By: true, Grouping: []string{"a"}},
+		{Start: fromS * 1000, End: toS * 1000, Step: 120000, Func: "max_over_time", Range: 60000},
+		{Start: 1699999995000, End: toS * 1000, Step: 30000, Func: "count_over_time", Range: 300000},
+		{Start: 1699999995000, End: toS * 1000, Step: 30000},
+		{Start: 1699999995000, End: toS * 1000, Step: 60000, Func: "last_over_time", Range: 300000, Grouping: []string{"a"}},
+	}
+	h := list[((v.Wrap%2)+2*v.Opt)%len(list)]
+	return &h
+}
+
 func get(rd *readersvc.Reader, path string, q url.Values) int {
+	path, q = applyOpt(path, q)
 	target := path
 	if len(q) > 0 {
 		target += "?" + q.Encode()
@@ -258,10 +344,7 @@ func allPositions() []*position {
 				if mt == labels.MatchRegexp || mt == labels.MatchNotRegexp {
 					want = "^(?:" + p + ")$"
 				}
-				hints := &storage.SelectHints{Start: fromS * 1000, End: toS * 1000, Step: 1000}
-				if v.Wrap%2 == 1 {
-					hints = &storage.SelectHints{Start: 1699999995000, End: toS * 1000, Step: 30000, Func: "avg_over_time", Range: 300000}
-				}
+				hints := promHints(v)
 				q, err := rd.Prom.SetOidAndDB(context.Background()).Querier(context.Background(), hints.Start, hints.End)
 				if err != nil {
 					return outcome{intended: want, expressible: true, status: 1}
@@ -409,8 +492,7 @@ func allPositions() []*position {
 		return err
 	}, true)
 	prof("prof.selector.series", func(rd *readersvc.Reader, sel, raw string) error {
-		_, err := rd.Prof.SelectSeries(ctx, sel, tid, []string{"pod"}, 0, 15, tf, tt)
-		return err
+		return selectSeries(rd, sel, tid, []string{"pod"})
 	}, true)
 	prof("prof.selector.timeseries", func(rd *readersvc.Reader, sel, raw string) error {
 		_, err := rd.Prof.TimeSeries(ctx, []string{sel}, []string{"pod"}, tf, tt)
@@ -421,8 +503,7 @@ func allPositions() []*position {
 		return err
 	}, false)
 	prof("prof.series.groupby", func(rd *readersvc.Reader, sel, raw string) error {
-		_, err := rd.Prof.SelectSeries(ctx, `{service_name="svc"}`, tid, []string{raw}, 0, 15, tf, tt)
-		return err
+		return selectSeries(rd, `{service_name="svc"}`, tid, []string{raw})
 	}, false)
 	prof("prof.timeseries.label", func(rd *readersvc.Reader, sel, raw string) error {
 		_, err := rd.Prof.TimeSeries(ctx, []string{`{service_name="svc"}`}, []string{raw}, tf, tt)
